@@ -11,6 +11,7 @@ import (
 	"time"
 
 	"github.com/glebziz/fs_db"
+	"github.com/glebziz/fs_db/pkg/external"
 	"github.com/glebziz/fs_db/pkg/verif"
 
 	"verifharness/internal/dbx"
@@ -21,7 +22,7 @@ import (
 func init() {
 	p := Registry["C11"]
 	p.Roles["keyshapes"] = Role{N: func(t string) int { return tierN(t, 4, 16) }, Case: c11KeyShapes}
-	p.Rule += " Role keyshapes: one call script (Get and GetReader of a key never written, Delete of it, Set, Get, GetKeys, then inside a transaction of each level Get, Delete, Get, Set, Get and Commit, then Delete and the Get of the deleted key, a second Commit; a Rollback and a Commit first attempted with a context that is already done and then repeated with a live one: afterwards the handle is finished and the data rolled back / committed for both clients) run with the same key through the inline client and through the gRPC client against the real server, call by call comparison of value and sentinel class, over a grid of valid UTF-8 keys: rune widths 1-4 bytes after an ASCII prefix of 0-3 bytes, total lengths around 16, 32, 64, 128, 256, 512, 1024, 4096, 65536 bytes (whatever byte offset a layer may cut, quote or pad a key at, some key has a rune straddling it). Half of the cases open the gRPC handle with a context that is done as soon as Open has returned."
+	p.Rule += " Role keyshapes: one call script (Get and GetReader of a key never written, Delete of it, Set, Get, GetKeys, then inside a transaction of each level Get, Delete, Get, Set, Get and Commit, then Delete and the Get of the deleted key, a second Commit; a Rollback and a Commit first attempted with a context that is already done and then repeated with a live one: afterwards the handle is finished and the data rolled back / committed for both clients) run with the same key through the inline client and through the gRPC client against the real server, call by call comparison of value and sentinel class, over a grid of valid UTF-8 keys: rune widths 1-4 bytes after an ASCII prefix of 0-3 bytes, total lengths around 16, 32, 64, 128, 256, 512, 1024, 4096, 65536 bytes (whatever byte offset a layer may cut, quote or pad a key at, some key has a rune straddling it). Other handles to the same server are opened, used and closed meanwhile. Half of the cases open the gRPC handle with a context that is done as soon as Open has returned."
 }
 
 // c11KeyGrid returns valid UTF-8 keys whose runes straddle every small byte offset.
@@ -65,6 +66,17 @@ func c11KeyShapes(tier string, seed int64, idx int, scratch string) rt.CaseResul
 	if doneCtx {
 		time.Sleep(20 * time.Millisecond) // whatever hangs on the opening context has had its chance
 	}
+	// a second handle to the same server is opened, used once and closed while the first stays in
+	// use (and one more is opened and closed half-way): handles are independent of one another
+	second := func() {
+		if h, err := external.Open(ctxBg, g.Addr); err == nil {
+			h.Get(ctxBg, "whatever")
+			if cl, ok := h.(interface{ Close() error }); ok {
+				cl.Close()
+			}
+		}
+	}
+	second()
 	type res struct {
 		op  string
 		cls string
@@ -150,6 +162,9 @@ func c11KeyShapes(tier string, seed int64, idx int, scratch string) rt.CaseResul
 	}
 	for n, key := range c11KeyGrid(idx, cases) {
 		rt.Beat()
+		if n == 3 {
+			second()
+		}
 		level := (n + idx/2) % 4
 		tag := fmt.Sprintf("ks%d-%d", idx, n)
 		ri, rg := script(in.DB, key, level, tag), script(g.DB, key, level, tag)
